@@ -53,7 +53,8 @@ def run_tasks(tasks, procs=None):
     out = [None] * len(tasks)
     todo = []
     for i, t in enumerate(tasks):
-        key = hashlib.sha1((th + json.dumps(t, sort_keys=True)).encode()
+        key = hashlib.sha1((th + os.environ.get('VERIF_CROSSCHECK', '') +
+                            json.dumps(t, sort_keys=True)).encode()
                            ).hexdigest()
         cp = os.path.join(CACHE, key + '.json')
         t['_cache'] = cp
